@@ -734,9 +734,106 @@ func runBytes(c BytesCase, o *vh.Obs) *vh.Failure {
 	return checkRewrite(*back, p)
 }
 
+// ---------------------------------------------------------------- sub-check 3: large files and meshes
+
+// LargeCase is a recipe (the replay file stays small): Tris records or triangles with values from
+// a small linear congruential sequence, at the record counts where a count width, a read buffer
+// or a block size changes (the random cases above have at most six triangles).
+type LargeCase struct {
+	Tris int
+	Seed uint32
+	Mode int // 0 raw bytes without normals, 1 raw bytes with axis normals, 2 mesh with its own vertices per corner, 3 welded grid mesh, 4 welded grid mesh with normals
+}
+
+var largeCounts = []int{81, 82, 163, 255, 256, 257, 1000, 1310, 1311, 4096, 65535, 65536, 65537, 70000, 131072}
+
+func genLarge(t *rapid.T) LargeCase {
+	return LargeCase{
+		Tris: rapid.SampledFrom(largeCounts).Draw(t, "tris"),
+		Seed: rapid.Uint32().Draw(t, "seed"),
+		Mode: rapid.IntRange(0, 4).Draw(t, "mode"),
+	}
+}
+
+type lcg uint32
+
+func (l *lcg) eighth() float64 { // multiples of 1/8 in [-32, 32]
+	*l = *l*1664525 + 1013904223
+	return float64(int(uint32(*l)>>16)%513-256) / 8
+}
+
+func runLarge(c LargeCase, o *vh.Obs) *vh.Failure {
+	if c.Tris < 1 || c.Tris > 1<<18 || c.Mode < 0 || c.Mode > 4 {
+		o.Class("out-of-domain")
+		return nil
+	}
+	o.Class(fmt.Sprintf("large/mode-%d", c.Mode))
+	switch {
+	case c.Tris > 65535:
+		o.Class("large/count-beyond-16-bit")
+	case c.Tris > 255:
+		o.Class("large/count-beyond-8-bit")
+	default:
+		o.Class("large/count-beyond-one-4096-byte-buffer")
+	}
+	o.NonTrivial()
+	r := lcg(c.Seed)
+	if c.Mode <= 1 {
+		b := make([]byte, 80, 84+50*c.Tris)
+		copy(b, "large reference file")
+		b = binary.LittleEndian.AppendUint32(b, uint32(c.Tris))
+		for i := 0; i < c.Tris; i++ {
+			var nv [3]float32
+			if c.Mode == 1 {
+				nv[i%3] = float32(1 - 2*(i/3%2))
+			}
+			for _, x := range nv {
+				b = binary.LittleEndian.AppendUint32(b, math.Float32bits(x))
+			}
+			for k := 0; k < 9; k++ {
+				b = binary.LittleEndian.AppendUint32(b, math.Float32bits(float32(r.eighth())))
+			}
+			b = binary.LittleEndian.AppendUint16(b, uint16(i*7))
+		}
+		return runBytes(BytesCase{Raw: b}, &vh.Obs{})
+	}
+	d := gen.MeshDesc{Topo: int(modeling.TriangleTopology), V3: map[string][][3]gen.F{}}
+	if c.Mode == 2 {
+		d.N = 3 * c.Tris
+		for i := 0; i < d.N; i++ {
+			d.Idx = append(d.Idx, i)
+		}
+	} else { // a w x h grid of quads, two triangles each, vertices shared
+		w := int(math.Ceil(math.Sqrt(float64(c.Tris) / 2)))
+		d.N = (w + 1) * (w + 1)
+		for q := 0; len(d.Idx) < 3*c.Tris; q++ {
+			x, y := q%w, q/w
+			a := y*(w+1) + x
+			d.Idx = append(d.Idx, a, a+1, a+w+2)
+			if len(d.Idx) < 3*c.Tris {
+				d.Idx = append(d.Idx, a, a+w+2, a+w+1)
+			}
+		}
+	}
+	pos := make([][3]gen.F, d.N)
+	for i := range pos {
+		pos[i] = [3]gen.F{gen.F(r.eighth()), gen.F(r.eighth()), gen.F(r.eighth())}
+	}
+	d.V3[modeling.PositionAttribute] = pos
+	if c.Mode == 4 {
+		nr := make([][3]gen.F, d.N)
+		for i := range nr {
+			nr[i][i%3] = gen.F(1 - 2*(i/3%2))
+		}
+		d.V3[modeling.NormalAttribute] = nr
+	}
+	return runMesh(MeshCase{M: d}, &vh.Obs{})
+}
+
 func TestC07(t *testing.T) {
 	vh.Drive(t, vh.Spec[MeshCase]{Name: "mesh-roundtrip", Quick: 500000, Thorough: 15000000, Gen: genMesh, Run: runMesh})
 	vh.Drive(t, vh.Spec[BytesCase]{Name: "bytes-roundtrip", Quick: 700000, Thorough: 21000000, Gen: genBytes, Run: runBytes})
+	vh.Drive(t, vh.Spec[LargeCase]{Name: "large", Quick: 240, Thorough: 8000, Gen: genLarge, Run: runLarge})
 }
 
 func FuzzC07Bytes(f *testing.F) {
